@@ -1,8 +1,9 @@
 #!/bin/sh
-# tools/nf_prepare.sh <neutral-name>  -> /tmp/nfd/<name> (scratch copy with the variant applied; remove when done)
+# tools/nf_prepare.sh <name> [patch]  -> /tmp/nfd/<name> (scratch copy of /repo HEAD with the variant applied; remove when done)
+#   patch defaults to /verif/neutral/<name>/patch.diff; for campaign output give e.g. /tmp/refactors3/C05/r1/patch.diff
 set -e
 d=/tmp/nfd/$1
 rm -rf "$d"; mkdir -p "$d"
-git -C /repo archive HEAD msmart reference | tar -x -C "$d"
-cd "$d" && git apply --whitespace=nowarn /verif/neutral/$1/patch.diff
+git -C /repo archive HEAD | tar -x -C "$d"
+cd "$d" && git apply --whitespace=nowarn "${2:-/verif/neutral/$1/patch.diff}"
 echo "$d"
